@@ -342,7 +342,9 @@ def run(ck, build):
     ck.rule("R-C06-SHIFT", "every shift has an amount below the operand width: constants checked exactly, variable amounts through their known-bits range (undecided ones are listed, not reported)")
     ck.rule("R-C06-NSW", "signed nsw arithmetic with derivable operand ranges cannot overflow (known-bits ranges); others are listed as not decided")
     ck.rule("R-C06-EXACT", "exact output ranges: AEAD/SIV functions write exactly [0,mlen+8) / [0,clen-8) (per path class, via the mode summaries), refused calls write nothing, "
-            "generate_tag writes exactly 8 bytes; check_tag's wipe and tinyjambu_clean never write outside the requested bytes (D-COV; whether they cover all of them is C04's / C20's)")
+            "generate_tag writes exactly 8 bytes; check_tag's wipe and tinyjambu_clean never write outside the requested bytes (D-COV; whether they cover all of them is C04's / C20's); "
+            "HKDF expand writes the left-over bytes, whole and partial blocks at the cursor and zero-fills exactly the rest on refusal, PBKDF2 writes 32 bytes per whole block and exactly the "
+            "requested bytes of the last one (from the HKDF / PBKDF2 stream summaries; the values are C13's / C14's)")
     ck.rule("R-C06-WITNESS", "compile-fail witnesses: all library units compile with cast-align, cast-qual, shift-count, vla, array-bounds, uninitialized promoted to errors")
     ck.not_decided += ["reads of uninitialised local bytes beyond what clang's -Wuninitialized and the mode summaries see", "nsw arithmetic whose operands are loop counters / opaque (listed in notes)",
                        "optimised objects beyond the alignment claims of the -O3 IR; gcc", "zero-length pointers may still be passed to memcpy(…, 0) (defined in C2x; glibc does not touch them)"]
@@ -408,6 +410,14 @@ def run(ck, build):
             return ck.ob(cond, "R-C06-EXACT", fn, cons, ok, bad, where=where)
         return cond
     _exact(_kdf.check_hkdf, _hk, mod, label)
+    # ... and for PBKDF2 (32 bytes per whole block, exactly the requested bytes of the last one)
+    _wr2 = ("full-block-range", "last-block-range")         # (which bytes are written - what they hold is C14's / C15's)
+
+    def _kd(cond, rule, fn, cons, ok, bad, where=None):
+        if cons.startswith(_wr2):
+            return ck.ob(cond, "R-C06-EXACT", fn, cons, ok, bad, where=where)
+        return cond
+    _exact(_kdf.check_pbkdf2, _kd, mod, label)
 
     class _W:
         def __init__(self, ck):
